@@ -537,7 +537,7 @@ pub fn prop() -> Prop<Case> {
     Prop {
         id: "C08",
         level: "exploration",
-        rule: "archives are written directly by the harness in the documented format. Enumeration: every arrangement of 3 band slots, each in {absent, directory without head (with or without a stray tail), directory with a zero-length head, head(+tail) without hunks, head + any non-empty sorted subset of the universe split into 1 or 2 hunks, with or without tail} over the universe {/a, /a.b, /a/b} (quick; thorough adds /é), listed for every N that has a head and subtree in {/, /a, /a.b}. Generated: up to 5 slots with id gaps of 1-59 and ids crossing b9999/b10000, universes of 4-10 generated paths, up to 5 hunks per band incl. empty [] hunks and missing trailing hunks, subtree from the universe or absent, exclude sets. One fixed scale probe: an interrupted band of 10 003 one-entry hunks over a complete one. Oracle: Archive::iter_entries == reference stitcher (own entries, then nearest earlier band with a head after the last path taken, until a closed band) filtered by containment and the exclude rule, entry-for-entry with provenance encoded in mtime; strictly increasing under the reference order; never longer than the archive's entry count (termination). Non-trivial = N incomplete, an older band continues it, and the resume point falls strictly inside a hunk of the older band or skips over an absent/head-less slot; enumerated listings distinct by construction, generated by case hash; since round 6 one generated case in a hundred is very wide: 600-1600 paths, bands of 200-700 hunks of mostly two to four entries; since round 7 a second probe: an interrupted band ending at the first, middle and last entry of a hunk early, midway and late in a complete band of 1400 three-entry hunks and of 2500 two-entry hunks",
+        rule: "archives are written directly by the harness in the documented format. Enumeration: every arrangement of 3 band slots, each in {absent, directory without head (with or without a stray tail), directory with a zero-length head, head(+tail) without hunks, head + any non-empty sorted subset of the universe split into 1 or 2 hunks, with or without tail} over the universe {/a, /a.b, /a/b} (quick; thorough adds /é), listed for every N that has a head and subtree in {/, /a, /a.b}. Generated: up to 5 slots with id gaps of 1-59 and ids crossing b9999/b10000, universes of 4-10 generated paths, up to 5 hunks per band incl. empty [] hunks and missing trailing hunks, subtree from the universe or absent, exclude sets. One fixed scale probe: an interrupted band of 10 003 one-entry hunks over a complete one. Oracle: Archive::iter_entries == reference stitcher (own entries, then nearest earlier band with a head after the last path taken, until a closed band) filtered by containment and the exclude rule, entry-for-entry with provenance encoded in mtime; strictly increasing under the reference order; never longer than the archive's entry count (termination). Non-trivial = N incomplete, an older band continues it, and the resume point falls strictly inside a hunk of the older band or skips over an absent/head-less slot; enumerated listings distinct by construction, generated by case hash; since round 6 one generated case in a hundred is very wide: 600-1600 paths, bands of 200-700 hunks of mostly two to four entries; since round 7 a second probe: an interrupted band ending at the first, middle and last entry of a hunk early, midway and late in a complete band of 1400 three-entry hunks and of 2500 two-entry hunks; since round 8 the probe's third configuration has 10 004 two-entry hunks (a second index sub-directory), the interrupted band ending in hunks 9 999, 10 000 and 10 001",
         assumptions: &[
             "head-less directories are not 'existing versions' (the stitcher skips them)",
             "reference stitcher and containment/exclude oracles are the harness's own",
